@@ -13,6 +13,7 @@ import (
 	"encoding/json"
 	"fmt"
 	"os"
+	"os/exec"
 	"strings"
 	"sync"
 	"sync/atomic"
@@ -27,7 +28,8 @@ type SharedScenario struct {
 	K       int      `json:"k"`
 	Iters   int      `json:"iters"`
 	Rounds  int      `json:"rounds"`
-	Pairing string   `json:"pairing"` // draw | string | sub | interleave
+	Pairing string   `json:"pairing"`        // draw | string | sub | interleave | derive | namesake
+	Gen2    *GenSpec `json:"gen2,omitempty"` // namesake: the generator the odd checks draw from
 	PauseAt int      `json:"pauseAt"`
 	Seed    int      `json:"seed"`
 }
@@ -83,6 +85,11 @@ func sharedMode(t *testing.T, rec *Recorder) {
 		}
 		rec.Emit("scen.begin", F{"id": sc.ID, "pairing": sc.Pairing, "k": sc.K, "gen": sc.Gen.K})
 		r := NewRunner(rec)
+		if sc.Pairing == "namesake" {
+			namesakeScenario(rec, &sc, r)
+			rec.Emit("scen.end", F{"id": sc.ID})
+			continue
+		}
 		for round := 0; round < sc.Rounds; round++ {
 			func() {
 				seedOf := func(k, i int) int { return sc.Seed + 1000*round + 37*k + i }
@@ -219,3 +226,121 @@ func freshen(s *GenSpec) *GenSpec {
 	c.Expr = strings.ReplaceAll(s.Expr, "%FRESH%", fmt.Sprintf(`[\x{%x}-\x{%x}]`, base, base+0x3ffff))
 	return &c
 }
+
+// ---- namesake pairing ------------------------------------------------------------------------------------------------
+// Two DIFFERENT generator values whose lazily built parts go by the same name inside rapid (a character class and its
+// case-insensitive twin print alike) are drawn from by concurrently running checks, even checks from the first, odd
+// checks from the second.  "Alone" means alone in a process here: the reference draws of each generator are made by a
+// new process of this binary that never sees the other one.
+
+type soloJob struct {
+	Specs []*GenSpec `json:"specs"` // one per round (already freshened)
+	Ks    []int      `json:"ks"`
+	Iters int        `json:"iters"`
+	Seed  int        `json:"seed"`
+}
+
+type soloDraw struct {
+	Key     string `json:"key"`
+	Draws   string `json:"draws"`
+	Crashed bool   `json:"crashed"`
+}
+
+func namesakeSeed(seed, round, k, i int) int { return seed + 1000*round + 37*k + i }
+
+func freshenPair(a, b *GenSpec) (*GenSpec, *GenSpec) {
+	base := 0x10000 + int(freshCounter.Add(1))*3
+	cls := fmt.Sprintf(`[\x{%x}-\x{%x}]`, base, base+0x3ffff)
+	ca, cb := *a, *b
+	ca.Expr = strings.ReplaceAll(a.Expr, "%FRESH%", cls)
+	cb.Expr = strings.ReplaceAll(b.Expr, "%FRESH%", cls)
+	return &ca, &cb
+}
+
+func namesakeScenario(rec *Recorder, sc *SharedScenario, r *Runner) {
+	jobs := [2]soloJob{{Iters: sc.Iters, Seed: sc.Seed}, {Iters: sc.Iters, Seed: sc.Seed}}
+	for k := 0; k < sc.K; k++ {
+		jobs[k%2].Ks = append(jobs[k%2].Ks, k)
+	}
+	for round := 0; round < sc.Rounds; round++ {
+		sa, sb := freshenPair(sc.Gen, sc.Gen2)
+		jobs[0].Specs, jobs[1].Specs = append(jobs[0].Specs, sa), append(jobs[1].Specs, sb)
+		built := [2]*Built{(&GenEnv{cache: map[*GenSpec]*Built{}, run: r}).Build(sa), (&GenEnv{cache: map[*GenSpec]*Built{}, run: r}).Build(sb)}
+		results := make([][]soloDraw, sc.K)
+		var wg sync.WaitGroup
+		start := make(chan struct{})
+		for k := 0; k < sc.K; k++ {
+			k := k
+			wg.Add(1)
+			go func() {
+				defer wg.Done()
+				<-start
+				for i := 0; i < sc.Iters; i++ {
+					v, c := exampleOf(built[k%2], namesakeSeed(sc.Seed, round, k, i))
+					results[k] = append(results[k], soloDraw{fmt.Sprintf("r%d/k%d/i%d", round, k, i), v, c})
+				}
+			}()
+		}
+		close(start)
+		wg.Wait()
+		for k := range results {
+			for _, d := range results[k] {
+				rec.Emit("shared", F{"key": d.Key, "draws": d.Draws, "crashed": d.Crashed, "stable": true})
+			}
+		}
+	}
+	for j := range jobs {
+		for _, d := range soloInNewProcess(rec, &jobs[j]) {
+			rec.Emit("solo", F{"key": d.Key, "draws": d.Draws, "crashed": d.Crashed})
+		}
+	}
+}
+
+func soloInNewProcess(rec *Recorder, job *soloJob) []soloDraw {
+	in, _ := os.CreateTemp("", "solo-*.in")
+	b, _ := json.Marshal(job)
+	_, _ = in.Write(b)
+	_ = in.Close()
+	out := in.Name() + ".out"
+	defer os.Remove(in.Name())
+	defer os.Remove(out)
+	cmd := exec.Command(os.Args[0], "-test.run", "^TestVerif$", "-test.timeout", "0", "-verif.mode", "solo", "-verif.in", in.Name(), "-verif.out", out+".trace", "-verif.child", out)
+	_ = cmd.Run()
+	_ = os.Remove(out + ".trace")
+	data, err := os.ReadFile(out)
+	var res []soloDraw
+	if err != nil || json.Unmarshal(data, &res) != nil {
+		rec.Emit("harness.error", F{"msg": "solo process produced no result"})
+		return nil
+	}
+	return res
+}
+
+// soloMode: the new process -- draws from the generators of one job, nothing else
+func soloMode(t *testing.T, rec *Recorder) {
+	data, err := os.ReadFile(*fIn)
+	if err != nil {
+		t.Fatal(err)
+	}
+	var job soloJob
+	if err := json.Unmarshal(data, &job); err != nil {
+		t.Fatal(err)
+	}
+	r := NewRunner(rec)
+	var res []soloDraw
+	for round, spec := range job.Specs {
+		b := (&GenEnv{cache: map[*GenSpec]*Built{}, run: r}).Build(spec)
+		for _, k := range job.Ks {
+			for i := 0; i < job.Iters; i++ {
+				v, c := exampleOf(b, namesakeSeed(job.Seed, round, k, i))
+				res = append(res, soloDraw{fmt.Sprintf("r%d/k%d/i%d", round, k, i), v, c})
+			}
+		}
+	}
+	out, _ := json.Marshal(res)
+	if err := os.WriteFile(*fChild, out, 0o644); err != nil {
+		t.Fatal(err)
+	}
+}
+
+func init() { modes["solo"] = soloMode }
